@@ -72,6 +72,8 @@ func weightsOf(pattern string, idx int) (has bool, leader, region float64) {
 		has = true
 	case "alt":
 		has = idx%2 == 0
+	case "digits": // more significant digits than a float32 holds
+		return true, 0.123456789 + float64(idx%3), 1.0/3 + float64(idx%2)*16777217
 	case "reset": // saved twice: first 2.5 / 0.5, then back to the default 1 for one or both weights
 		switch idx % 3 {
 		case 0:
@@ -415,7 +417,7 @@ func storeInputs(tier string) []bulkIn {
 				if n == 0 && ids != "dense1" {
 					continue
 				}
-				for _, wt := range []string{"none", "all", "alt", "reset"} {
+				for _, wt := range []string{"none", "all", "alt", "reset", "digits"} {
 					for _, v := range []string{"plain", "del", "over"} {
 						l = append(l, bulkIn{kind: "store", backend: be, n: n, ids: ids, weights: wt, variant: v})
 					}
